@@ -195,17 +195,39 @@ func satCase(w *gal.Writer, name, op, cver, pin, ver string, clean bool, class s
 		Class: class, Desc: map[string]any{"constraint": full, "version": ver, "satisfied": obs}})
 }
 
+// one candidate through the REAL filterPackages (apk.VerifFilterAccepts): own version and provides against name+op+cver
+func fltCase(w *gal.Writer, name, op, cver, ver string, provs []string, clean bool, class string) {
+	if _, err := apk.ParseVersion(ver); err != nil && clean {
+		return
+	}
+	obs := apk.VerifFilterAccepts(name, ver, provs, name+op+cver)
+	ps := make([]string, len(provs))
+	for i, p := range provs {
+		ps[i] = gal.Str(p)
+	}
+	w.Add(gal.Case{Term: fmt.Sprintf("{| f_name := %s; f_op := %s; f_cver := %s; f_ver := %s; f_provs := [%s]; f_obs := %s; f_clean := %s |}",
+		gal.Str(name), gal.Str(op), gal.Str(cver), gal.Str(ver), strings.Join(ps, "; "), gal.Bool(obs), gal.Bool(clean)),
+		Class: class, Desc: map[string]any{"constraint": name + op + cver, "candidate_version": ver, "provides": provs, "passes_filter": obs}})
+}
+
 func resCase(w *gal.Writer, s, class string) {
 	n, v, p, d := resolveObs(s)
 	w.Add(gal.Case{Term: fmt.Sprintf("{| r_str := %s; r_name := %s; r_ver := %s; r_dep := %s; r_pin := %s |}", gal.Str(s), gal.Str(n), gal.Str(v), gal.Z(int64(d)), gal.Str(p)),
 		Class: class, Desc: map[string]any{"resolve": s, "name": n, "version": v, "dep": d, "pin": p}})
 }
 
+func pickN(r *gal.Rand) int {
+	if r.Chance(1, 2) {
+		return 0
+	}
+	return 1 + r.Intn(2)
+}
+
 func main() {
 	out := flag.String("out", "", "cases directory")
 	seed := flag.Uint64("seed", 1, "seed")
 	tier := flag.String("tier", "quick", "tier")
-	stage := flag.String("stage", "parse", "parse|compare|constraint|resolve")
+	stage := flag.String("stage", "parse", "parse|compare|constraint|resolve|filter")
 	_ = flag.String("replay", "", "unused")
 	flag.Parse()
 	scale := 1
@@ -305,6 +327,61 @@ func main() {
 				continue
 			}
 			satCase(w, gal.Pick(r, names), opr, cv, gal.Pick(r, pins), genParts(r, true).String(), false, "odd-operators")
+		}
+	case "filter":
+		w = &gal.Writer{Dir: *out, Require: "From Apko Require Import Corr.C03.", Type: "flt_case", Check: "check_filter", Shard: 500}
+		ops := []string{"=", ">", "<", ">=", "<=", "~"}
+		// equal versions spelled differently, under every operator, both ways round (seeded change C03-6: '=' by string)
+		for _, p := range [][2]string{{"1.2.3", "1.2.3-r0"}, {"1.06", "1.6"}, {"2.0_rc", "2.0_rc0"}, {"3.1_p", "3.1_p0-r0"}, {"1", "1-r0"}, {"1.0", "1.00"}, {"1_alpha", "1_alpha0"},
+			{"1.2.3", "1.2.3"}, {"1.2", "1.2.0"}, {"1_hg", "1"}, {"1_hg2", "1_git3"}, {"1_cvs", "1_svn"}, {"1a", "1"}, {"1-r1", "1-r01"}} {
+			for _, op := range ops {
+				fltCase(w, "a", op, p[0], p[1], nil, true, "corpus-spellings")
+				fltCase(w, "a", op, p[1], p[0], nil, true, "corpus-spellings")
+				fltCase(w, "a", op, p[0], "0.1", []string{"a=" + p[1]}, true, "corpus-spellings-provided")
+				fltCase(w, "a", op, p[1], "9", []string{"x", "a=" + p[0]}, true, "corpus-spellings-provided")
+			}
+		}
+		fltCase(w, "a", "", "", "1", nil, true, "corpus")
+		fltCase(w, "a", "", "", "notaversion", nil, false, "corpus")
+		fltCase(w, "a", "=", "notaversion", "1", nil, false, "corpus")
+		fltCase(w, "a", "=", "1", "notaversion", []string{"a=1"}, false, "corpus")
+		fltCase(w, "a", ">=", "2", "1.0", []string{"a=2.5.0"}, true, "corpus")
+		fltCase(w, "a", ">=", "2", "1.0", []string{"a=bad", "a=2.5.0"}, false, "corpus")
+		fltCase(w, "a", ">=", "2", "1.0", []string{"a", "b=3"}, false, "corpus") // a provide of ANOTHER name counts (the loop ignores names)
+		for i := 0; i < 900*scale; i++ {
+			small := r.Chance(3, 4)
+			cv := genParts(r, small)
+			v := neighbour(r, cv, small)
+			if r.Chance(1, 5) {
+				v = genParts(r, small)
+			}
+			var provs []string
+			for k, n := 0, pickN(r); k < n; k++ {
+				pv := neighbour(r, cv, small)
+				if r.Chance(1, 4) {
+					pv = cv
+				}
+				switch r.Intn(5) {
+				case 0:
+					provs = append(provs, "a")
+				default:
+					provs = append(provs, "a="+pv.String())
+				}
+			}
+			fltCase(w, "a", gal.Pick(r, ops), cv.String(), v.String(), provs, true, "structured")
+		}
+		for i := 0; i < 150*scale; i++ {
+			cv := genParts(r, true).String()
+			v := genParts(r, true).String()
+			if r.Bool() {
+				cv = mutate(r, cv)
+			} else {
+				v = mutate(r, v)
+			}
+			if strings.ContainsAny(cv+v, "\x00") {
+				continue
+			}
+			fltCase(w, "a", gal.Pick(r, ops), cv, v, []string{"a=" + mutate(r, genParts(r, true).String())}, false, "malformed")
 		}
 	case "resolve":
 		names := []string{"a", "foo-bar", "so:libc.so.6", "cmd:x", "pc:y+z", "py3.11-foo", "a.b_c"}
